@@ -852,8 +852,17 @@ func init() {
 	addModel("trimstr", "trimstr($a)", 1, mTrimstr, genStrPair)
 	addModel("startswith", "startswith($a)", 1, mStartswith, genStrPair)
 	addModel("endswith", "endswith($a)", 1, mEndswith, genStrPair)
-	addModel("ascii_downcase", "ascii_downcase", 0, asciiCase(false), nil)
-	addModel("ascii_upcase", "ascii_upcase", 0, asciiCase(true), nil)
+	asciiGen := func(t *rapid.T) (any, []any) {
+		pieces := []string{"@", "A", "B", "Y", "Z", "[", "`", "a", "b", "y", "z", "{", "0", "é", "É", "ß", "K", "\u212a", "\u017f", " "}
+		n := rapid.IntRange(0, 8).Draw(t, "n")
+		var sb strings.Builder
+		for i := 0; i < n; i++ {
+			sb.WriteString(rapid.SampledFrom(pieces).Draw(t, "p"))
+		}
+		return sb.String(), nil
+	}
+	addModel("ascii_downcase", "ascii_downcase", 0, asciiCase(false), asciiGen)
+	addModel("ascii_upcase", "ascii_upcase", 0, asciiCase(true), asciiGen)
 	addModel("min", "min", 0, minMax(true), genArrayForOrder)
 	addModel("max", "max", 0, minMax(false), genArrayForOrder)
 	addModel("reverse", "reverse", 0, mReverse, genArrayForOrder)
